@@ -16959,6 +16959,11 @@ func parseBody(h *BGPHeader, data []byte, options ...*MarshallingOption) (*BGPMe
 	if len(data) < int(h.Len)-BGP_HEADER_LENGTH {
 		return nil, NewMessageError(BGP_ERROR_MESSAGE_HEADER_ERROR, BGP_ERROR_SUB_BAD_MESSAGE_LENGTH, nil, "Not all BGP message bytes available")
 	}
+	// the body decoders run to the end of the slice they are given: hand them
+	// the octets the header declares, not whatever else the caller's buffer holds.
+	if int(h.Len) >= BGP_HEADER_LENGTH {
+		data = data[:int(h.Len)-BGP_HEADER_LENGTH]
+	}
 	msg := &BGPMessage{Header: *h}
 
 	switch msg.Header.Type {
